@@ -6,7 +6,7 @@ from common import *
 PID = "C02"
 PROPS = "props/C02.v"
 GOTAB = ["datamatrix.go"]
-GOFILES = ["datamatrix.go"]
+GOFILES = ["datamatrix.go", "all.go"]
 EXTRACT = ["base", "gf", "datamatrix"]
 HANDLERS = ["h_datamatrix.ml"]
 
@@ -263,3 +263,9 @@ RULE = ("exhaustive: placement map of all 24 sizes (every cell), region arithmet
         "high-byte-only, mixed), 1557..1560 codewords, far beyond capacity, random contents, all colour schemes, calcECC and "
         "render on random codewords of every size (quick: seeded subset of the sizes >= 64x64); non-trivial = the encoder "
         "produced a symbol or an error / the sub-function had a non-empty input; distinct = distinct case line")
+
+
+def extra(rep, impl_exe, model_exe, rng, tier):
+    # returned barcodes must remain what they were when other symbols are encoded afterwards
+    import held
+    return held.held_phase(rep, impl_exe, rng, ['dm'], n=10 if tier == "quick" else 80)
